@@ -232,6 +232,12 @@ func appendEscapePointerName(b, name []byte) []byte {
 type stateMachine struct {
 	Stack []stateEntry
 	Last  stateEntry
+
+	// Floor is the minimum length of Stack that may not be popped.
+	// It is raised while a user-defined marshal or unmarshal method or
+	// function is operating on the Encoder or Decoder so that it cannot
+	// terminate a JSON object or array that it did not itself begin.
+	Floor int
 }
 
 // reset resets the state machine.
@@ -242,6 +248,7 @@ func (m *stateMachine) reset() {
 		m.Stack = nil
 	}
 	m.Last = stateTypeArray
+	m.Floor = 0
 }
 
 // Depth is the current nested depth of JSON objects and arrays.
@@ -325,6 +332,8 @@ func (m *stateMachine) popObject() error {
 		return errMissingValue
 	case !m.Last.isValidNamespace():
 		return errInvalidNamespace
+	case len(m.Stack) <= m.Floor:
+		return errMismatchDelim
 	default:
 		m.Last = m.Stack[len(m.Stack)-1]
 		m.Stack = m.Stack[:len(m.Stack)-1]
@@ -354,7 +363,7 @@ func (m *stateMachine) pushArray() error {
 // If an error is returned, the state is not mutated.
 func (m *stateMachine) popArray() error {
 	switch {
-	case !m.Last.isArray() || len(m.Stack) == 0: // forbid popping top-level virtual JSON array
+	case !m.Last.isArray() || len(m.Stack) <= m.Floor: // forbid popping top-level virtual JSON array
 		return errMismatchDelim
 	case !m.Last.isValidNamespace():
 		return errInvalidNamespace
